@@ -290,6 +290,18 @@ def normalize_url(
     if fix_common_mistakes and query:
         query = fix_common_query_mistakes(query)
 
+    # Unquoting
+    # NOTE: everything is safely unquoted first, so that the heuristics below
+    # do not depend on how the url happened to be quoted
+    if user:
+        user = safely_unquote_auth_item(user)
+
+    if password:
+        password = safely_unquote_auth_item(password)
+
+    path = safely_unquote_path(path)
+    fragment = safely_unquote_fragment(fragment)
+
     # Handling punycode
     # NOTE: only the hostname must be lowercased, not the authentication
     if hostname:
@@ -345,7 +357,7 @@ def normalize_url(
         # TODO: should be dedupe query items?
         qsl = [
             item
-            for item in safe_qsl_iter(query)
+            for item in safely_unquote_qsl(safe_qsl_iter(query))
             if not should_strip_query_item(
                 item,
                 normalize_amp=normalize_amp,
@@ -392,34 +404,18 @@ def normalize_url(
         path = path.rstrip("/")
 
     # Quoting
-    if user:
-        if quoted:
+    if quoted:
+        if user:
             user = safely_quote(user)
-        else:
-            user = safely_unquote_auth_item(user)
 
-    if password:
-        if quoted:
+        if password:
             password = safely_quote_password(password)
-        else:
-            password = safely_unquote_auth_item(password)
 
-    if quoted:
         path = safely_quote(path)
-    else:
-        path = safely_unquote_path(path)
-
-    if quoted:
         qsl = safely_quote_qsl(qsl)
-    else:
-        qsl = safely_unquote_qsl(qsl)
+        fragment = safely_quote(fragment)
 
     query = safe_serialize_qsl(qsl)
-
-    if quoted:
-        fragment = safely_quote(fragment)
-    else:
-        fragment = safely_unquote_fragment(fragment)
 
     # Result
     netloc = unsplit_netloc(user, password, hostname, port)
